@@ -3,8 +3,8 @@
 
   * `owed`: a counter over a token list; `*n` opens `n` obligations, every other token closes one;
   * every `Run` of `Cmd/Run.lean` writes one complete value unless the model has no claim (`ood`);
-  * `EXEC` writes `*n` and then one complete value per queued command that ran; the reply is short
-    by exactly the number of commands after the first failing one (D12);
+  * `EXEC` writes `*n` and then one complete value per queued command — every one of them runs, also after a
+    failing one (D12, repaired: the reply used to be short by the number of commands after the first failing one);
   * a well-formed token list is the encoding of a `Resp.Reply` tree, so the strict decoder of
     `Resp.lean` reads it back as exactly one reply with nothing left over.
 
@@ -572,15 +572,12 @@ theorem handleX_noPanic (st : ConnState) (db : DB) (now : Int) (req : List Bytes
 
 /-! ### EXEC -/
 
-/-- After `runQueue`: one segment per command that ran; with `n` commands queued and `k` segments
-written, `n - k` of the announced values are missing; no failure means `k = n`. -/
+/-- After `runQueue` (inside the model's domain): one segment per queued command — every command runs, also
+after a failing one (D12, repaired) — and together they are exactly the `n` announced values. -/
 theorem runQueue_owed (cmds : List ParsedCmd) (now : Int) (db : DB) (obs : List Token) (pos c : Nat)
     (hood : (runQueue cmds now db obs pos).ood = false) :
-    (runQueue cmds now db obs pos).segs.length ≤ cmds.length ∧
-    owed ((runQueue cmds now db obs pos).segs.flatMap (·.toks)) (cmds.length + c)
-      = some (cmds.length - (runQueue cmds now db obs pos).segs.length + c) ∧
-    ((runQueue cmds now db obs pos).failed = false →
-      (runQueue cmds now db obs pos).segs.length = cmds.length) := by
+    (runQueue cmds now db obs pos).segs.length = cmds.length ∧
+    owed ((runQueue cmds now db obs pos).segs.flatMap (·.toks)) (cmds.length + c) = some c := by
   induction cmds generalizing db pos with
   | nil => simp [runQueue, owed]
   | cons pc cs ih =>
@@ -591,23 +588,13 @@ theorem runQueue_owed (cmds : List ParsedCmd) (now : Int) (db : DB) (obs : List 
     · rw [if_pos ho] at hood; cases hood
     · rw [if_neg ho] at hood ⊢
       have hwf := hrun (by simpa using ho)
-      by_cases hf : (run pc (Model.tx true) now db (oracleAt obs pos)).failed = true
-      · rw [if_pos hf]
-        refine ⟨by simp, ?_, fun h => by cases h⟩
-        simp only [List.flatMap_cons, List.flatMap_nil, List.append_nil, List.length_cons,
-          List.length_nil]
-        have := owed_add _ 1 0 (cs.length + c) hwf
-        rw [show cs.length + 1 + c = 1 + (cs.length + c) by omega, this]
-        congr 1; omega
-      · rw [if_neg hf] at hood ⊢
-        obtain ⟨h1, h2, h3⟩ := ih _ _ hood
-        refine ⟨by simp; omega, ?_, fun h => by simp [h3 h]⟩
-        simp only [List.flatMap_cons, List.length_cons]
-        rw [owed_append, show cs.length + 1 + c = 1 + (cs.length + c) by omega,
-          owed_add _ 1 0 (cs.length + c) hwf]
-        simp only [Option.bind_some, Nat.zero_add]
-        rw [h2]
-        congr 1; omega
+      obtain ⟨h1, h2⟩ := ih _ _ hood
+      refine ⟨by simp [h1], ?_⟩
+      simp only [List.flatMap_cons, List.length_cons]
+      rw [owed_append, show cs.length + 1 + c = 1 + (cs.length + c) by omega,
+        owed_add _ 1 0 (cs.length + c) hwf]
+      simp only [Option.bind_some, Nat.zero_add]
+      exact h2
 
 /-- the tokens of an `EXEC` inside MULTI: the header, then what the queued commands wrote -/
 theorem handleX_exec (st : ConnState) (db : DB) (now : Int) (req : List Bytes) (pc : ParsedCmd)
@@ -624,25 +611,21 @@ theorem handleX_exec (st : ConnState) (db : DB) (now : Int) (req : List Bytes) (
   rw [hm']
   simp [h1, h2, pop_push, handleNext, hm, handleMulti, Out.toks]
 
-/-- **EXEC replies.** Inside MULTI, `EXEC` announces `n` values; exactly `n - k` of them are missing,
-where `k` is the number of queued commands that ran (all of them when none fails). -/
+/-- **EXEC replies.** Inside MULTI, `EXEC` announces `n` values and writes exactly `n`: its reply is one
+complete RESP value whether or not a queued command fails (D12, repaired). -/
 theorem exec_owed (st : ConnState) (db : DB) (now : Int) (req : List Bytes) (pc : ParsedCmd)
     (hm : st.inMulti = true) (hp : parse req = .ok pc) (hname : pc.name = asciiBytes "exec")
     (hood : (handleX st db now req []).ood = false) :
-    owed (handle st db now req).2.2 1
-      = some (st.cmds.length - (runQueue st.cmds now db [] 1).segs.length) ∧
-    ((runQueue st.cmds now db [] 1).failed = false → wellFormedOne (handle st db now req).2.2) := by
+    owed (handle st db now req).2.2 1 = some 0 ∧
+    (runQueue st.cmds now db [] 1).segs.length = st.cmds.length ∧
+    wellFormedOne (handle st db now req).2.2 := by
   obtain ⟨ht, ho⟩ := handleX_exec st db now req pc hm hp hname
   have hq := runQueue_owed st.cmds now db [] 1 0 (by rw [← ho]; exact hood)
-  have e : owed (handle st db now req).2.2 1
-      = some (st.cmds.length - (runQueue st.cmds now db [] 1).segs.length) := by
+  have e : owed (handle st db now req).2.2 1 = some 0 := by
     show owed (handleX st db now req []).toks (0 + 1) = _
     rw [ht, owed_hdr]
-    simpa using hq.2.1
-  refine ⟨e, fun hf => ?_⟩
-  unfold wellFormedOne
-  rw [e, hq.2.2 hf]
-  simp
+    simpa using hq.2
+  exact ⟨e, hq.1, e⟩
 
 /-! ### inside MULTI, other than EXEC -/
 
